@@ -1,6 +1,6 @@
 (** C04 - already-verified export data is never rewritten, damaged or lost across runs.  Statements only. *)
 From TB Require Import Base Decimal BencodeModel TorrentModel TorrentProofs PathModel FsModel SolverModel FinderModel RunModel
-                       SolverProofs RunProofs FsProofs FaultProofs PreludeProofs TableProofs FinderProofs SearchProofs PresentProofs Generated GeneratedObligations SystemModel SystemProofs GlueProofs RunExample.
+                       SolverProofs RunProofs FsProofs FaultProofs PreludeProofs TableProofs FinderProofs SearchProofs PresentProofs Generated GeneratedObligations SystemModel SystemProofs GlueProofs RunExample RerunProofs.
 From Coq Require Import Permutation Sorted.
 Local Open Scope N_scope.
 
@@ -51,9 +51,20 @@ Theorem C04_whole_run_verified_preserved H content export ts ix es ws f0 pool0 s
   holds (content e) (fs_content f0 i) lo hi -> holds (content e) (fs_content (s_fs s) i) lo hi.
 Proof. exact (whole_run_verified_preserved H content export ts ix es ws f0 pool0 s e i lo hi). Qed.
 
+(** ACROSS RUNS.  [runs content e f0 f]: any sequence of runs leads from [f0] to [f]; each run has its
+    own table [es] (other torrents, scan sets, flags, thread counts - all of which only shape the
+    table and the pool), relates its first to its last state by the whole-run invariant [SI]
+    (C11_every_interrupted_state_sound: complete, faulted or killed), and either has the entry in its
+    table or owns no path of the entry's inode.  A range of [e]'s export file that verified at the
+    beginning verifies at the end: the set of verifying pieces only grows. *)
+Theorem C04_verified_set_only_grows content e lo hi f0 f : (hi <= N.to_nat (e_len e))%nat ->
+  runs content e f0 f -> in_place content f0 e lo hi -> in_place content f e lo hi.
+Proof. exact (runs_keep_in_place content e lo hi f0 f). Qed.
+
 Print Assumptions C04_export_file_is_first_candidate.
 Print Assumptions C04_verified_multi_piece_not_written.
 Print Assumptions C04_verified_single_piece_not_written.
 Print Assumptions C04_verified_ranges_preserved.
 Print Assumptions C04_never_truncates.
 Print Assumptions C04_whole_run_verified_preserved.
+Print Assumptions C04_verified_set_only_grows.
